@@ -65,6 +65,25 @@ def criteria_pairing(ctx, conf, clause):
     ctx.ob("R-ORDER", clause, conf, "a criteria / tolerance count mismatch is rejected", len(lens) == 1, "")
 
 
+def _checkpoint_in_window(prog, res, g, f_, fa_, first_c, end_):
+    """calls between CFG nodes first_c and end_ (exclusive of end_) that can reach a checkpoint() method"""
+    import networkx as _nx
+
+    ck_q = {prog.fn(tables.BASE + ".checkpoint").qual}
+    for k_ in prog.subclasses(prog.cls(tables.BASE)):
+        if "checkpoint" in k_.methods:
+            ck_q.add(k_.methods["checkpoint"].qual)
+    out = []
+    for nid, c_ in fa_.find_expr(lambda e: isinstance(e, ast.Call)):
+        if nid == end_ or not (fa_.cfg.can_follow(first_c, nid) or nid == first_c) or not fa_.cfg.can_follow(nid, end_):
+            continue
+        for h_ in res.resolve_call(f_, c_, count=False) or []:
+            reach_ = {h_.qual} | (set(_nx.descendants(g, h_.qual)) if h_.qual in g else set())
+            if reach_ & ck_q:
+                out.append(src(c_)[:60])
+    return sorted(set(out))
+
+
 def run(ctx):
     prog = ctx.prog
     res = resolver(prog)
@@ -138,6 +157,11 @@ def run(ctx):
     nfa = FA(nf)
     fl = nfa.find(lambda s: isinstance(s, ast.Assign) and any(is_self_attr(t, "finalised") for t in s.targets) and const(s.value, True))
     ctx.ob("R-ORDER", "C15.3", nf, "finalise() sets finalised = True on every normal path", len(fl) == 1 and nfa.on_every_normal_path(fl[0]), "")
+    # between consuming the live points and finalised = True the pickled state is inconsistent (live points gone, run not
+    # marked finished): nothing in that stretch may be able to write a checkpoint, or a resume re-draws and re-consumes them
+    consume_ = nfa.find(lambda s_: isinstance(s_, ast.Assign) and any(is_self_attr(t_, "live_points") for t_ in s_.targets)) + [nid for nid, c_ in nfa.find_calls("self.nested_samples.append")]
+    window_calls = _checkpoint_in_window(prog, res, g, nf, nfa, min(consume_), fl[0]) if fl and consume_ else []
+    ctx.ob("R-INT", "C15.3", nf, "no call that can write a checkpoint runs between the consumption of the live points and finalised = True (live points are consumed exactly once across a resume)", bool(fl) and bool(consume_) and not window_calls, f"can reach checkpoint(): {sorted(set(window_calls))}")
     ni = ctx.fn(NS + ".initialise")
     nia = FA(ni)
     pops = nia.find_calls("self.populate_live_points")
@@ -248,6 +272,8 @@ def run(ctx):
     ctx.ob("R-DOM", "C15.3", inf, "INS finalise() returns early when already finalised", isinstance(first, ast.If) and canon(first.test) == "self.finalised" and isinstance(first.body[-1], ast.Return), "")
     fl = ifa.find(lambda s: isinstance(s, ast.Assign) and any(is_self_attr(t, "finalised") for t in s.targets) and const(s.value, True))
     tfin = ifa.find_calls("self.training_samples.finalise")
+    wc_ = _checkpoint_in_window(prog, res, g, inf, ifa, tfin[0][0], fl[0]) if len(fl) == 1 and len(tfin) == 1 else ["?"]
+    ctx.ob("R-INT", "C15.3", inf, "INS: no call that can write a checkpoint runs between the consumption of the live points and finalised = True", not wc_, f"can reach checkpoint(): {wc_}")
     ctx.ob("R-ORDER", "C15.3", inf, "INS finalise() consumes the remaining live points, then sets finalised = True, on every non-short-circuit path", len(fl) == 1 and len(tfin) == 1 and ifa.dominates(tfin[0][0], fl[0]) and ifa.cfg.every_exit_path_passes(tfin[0][0], [fl[0]]), "")
     osf = prog.cls(tables.OS_).methods["finalise"]
     oa = FA(osf)
@@ -277,6 +303,7 @@ CLAIM = {
 _N = "nessai/samplers/nestedsampler.py"
 _I = "nessai/samplers/importancesampler.py"
 MUTANTS = [
+    {"id": "ins-checkpoint-inside-finalise", "file": _I, "old": "        self.finalised = True\n        self.checkpoint(periodic=True, force=True)", "new": "        self.checkpoint(periodic=True, force=True)\n        self.finalised = True", "expect": "INS: no call that can write a checkpoint"},
     {"id": "ins-history-records-other-evidence", "file": _I, "old": '        self.history["logZ"].append(self.state.logZ)', "new": '        self.history["logZ"].append(self.training_samples.state.logZ)', "expect": "recorded in the history"},
     {"id": "ins-criteria-in-alias-table-order", "file": _I, "old": "        for c in stopping_criterion:\n            for criterion, aliases in self.stopping_criterion_aliases.items():\n                if c in aliases:\n                    self.stopping_criterion.append(criterion)\n", "new": "        for criterion, aliases in self.stopping_criterion_aliases.items():\n            for c in stopping_criterion:\n                if c in aliases:\n                    self.stopping_criterion.append(criterion)\n", "expect": "stored in the order the caller listed them"},
     {"id": "ins-tolerances-sorted", "file": _I, "old": "            self.tolerance = [float(t) for t in tolerance]\n", "new": "            self.tolerance = sorted(float(t) for t in tolerance)\n", "expect": "tolerances are stored in the caller's order"},
